@@ -263,6 +263,22 @@ def Seg.lin : Seg → Wire
 
 def linearise (segs : List Seg) : Wire := segs.flatMap Seg.lin
 
+/-- `w` is one of the ways the client may write the segment: map-ordered items in ANY order -/
+inductive Seg.Lin : Seg → Wire → Prop where
+  | fixed (w : Wire) : Seg.Lin (.fixed w) w
+  | anyOrder (items perm : List Wire) (h : perm.Perm items) : Seg.Lin (.anyOrder items) (joinSp perm)
+
+/-- `w` is one of the ways the client may write the segments of a protocol command -/
+inductive Lin : List Seg → Wire → Prop where
+  | nil : Lin [] []
+  | cons (s : Seg) (ss : List Seg) (w ws : Wire) (h : Seg.Lin s w) (t : Lin ss ws) : Lin (s :: ss) (w ++ ws)
+
+/-- one written form for each protocol command of a client call -/
+inductive LinAll : List (List Seg) → List Wire → Prop where
+  | nil : LinAll [] []
+  | cons (segs : List Seg) (rest : List (List Seg)) (w : Wire) (ws : List Wire) (h : Lin segs w) (t : LinAll rest ws) :
+      LinAll (segs :: rest) (w :: ws)
+
 /-! ## character classes and flags (decoder.go IsAtomChar, encoder.go isValidFlag) -/
 
 def isControl (ch : Nat) : Bool := ch < 32 || (127 ≤ ch && ch < 160)
@@ -1347,4 +1363,9 @@ def roundTrip (q : Quirks) (cfg : Cfg) (tag : Nat) (c : Cmd) : Outcome :=
     | .error .bad => .bad
     | .error .no => .no
     | .ok cs => .calls cs
+
+/-- the client call `c` is delivered as `calls` whatever order the client's maps yield: every way of writing
+    each of its protocol commands is read back by the server as these session calls -/
+def Delivers (q : Quirks) (cfg : Cfg) (tag : Nat) (c : Cmd) (calls : List Cmd) : Prop :=
+  ∃ cmds, printCmd q cfg tag c = .ok cmds ∧ ∀ wires, LinAll cmds wires → parseCmds cfg wires = .ok calls
 end GoImap.CmdGrammar
